@@ -48,6 +48,24 @@ func (w *World) scanGlobalWrites() []globalWrite {
 		}
 		return nil
 	}
+	// the address of a package-level variable (or of a field / element of
+	// one) handed to a call: the callee may write through it (sync.Pool,
+	// sync.Once, bytes.Buffer, ... kept in a global)
+	addrOfGlobal := func(v ssa.Value) *ssa.Global {
+		for depth := 0; depth < 8; depth++ {
+			switch x := v.(type) {
+			case *ssa.Global:
+				return x
+			case *ssa.FieldAddr:
+				v = x.X
+			case *ssa.IndexAddr:
+				v = x.X
+			default:
+				return nil
+			}
+		}
+		return nil
+	}
 	for fn := range ssautil.AllFunctions(w.Prog) {
 		if fn.Pkg == nil || !strings.HasPrefix(fn.Pkg.Pkg.Path(), w.ModPath) {
 			continue
@@ -75,6 +93,23 @@ func (w *World) scanGlobalWrites() []globalWrite {
 							// append to a global slice writes in place only if cap > len; the
 							// initial-value facts establish cap == len for literal initialisers
 							how = "append (in place iff cap>len)"
+						}
+					}
+				}
+				if cl, ok := ins.(ssa.CallInstruction); ok && g == nil {
+					cc := cl.Common()
+					var vals []ssa.Value
+					if cc.IsInvoke() {
+						vals = append(vals, cc.Value)
+					}
+					vals = append(vals, cc.Args...)
+					for _, a := range vals {
+						if ag := addrOfGlobal(a); ag != nil {
+							g = ag
+							how = "address passed to a call"
+							if callee := cc.StaticCallee(); callee != nil {
+								how += " of " + callee.String()
+							}
 						}
 					}
 				}
